@@ -47,6 +47,7 @@ func TestVerifC13Model(t *testing.T) {
 			rt.Fatalf("VERIF-HARNESS-BUG: open state %x: %v", root, err)
 		}
 		w := vNewWorld(rt, rs, sdb, m)
+		w.st = st
 		w.mode = rapid.SampledFrom([]int{0, 0, 0, 1, 1, 2}).Draw(rt, "checkMode")
 		w.beginTx(true)
 		n := rapid.IntRange(1, maxSteps).Draw(rt, "steps")
